@@ -254,7 +254,11 @@ def gen_sources(ctx, n):
 
 # ------------------------------------------------------------------------------------------ main
 def run(ctx):
+    import time
+    t0 = time.time()
+    timings = {}
     ok = ctx.coq_props()
+    timings["coq_build_and_audit_s"] = round(time.time() - t0, 1)
     qf = ctx.harness("qv_format")
     drv = ctx.driver("format")
     if not qf:
@@ -267,9 +271,11 @@ def run(ctx):
     # ---------------------------------------------------------------- end-to-end, real vs real
     std, tests = repo_sources()
     corpus = corpus_sources()
-    gen = gen_sources(ctx, ctx.n(10000, 150000))
+    gen = gen_sources(ctx, ctx.n(8000, 40000))
     sources = [(s, "corpus", None) for s in corpus] + [(s, "std", None) for s in std] + [(s, "tests", None) for s in tests] + gen
+    t1 = time.time()
     infos = e2e.run([s for s, _, _ in sources])
+    timings["e2e_s"] = round(time.time() - t1, 1)
 
     stats = {"by_origin": {}, "parse_errors": {}, "with_comments": 0, "multi_line_strings": 0, "single_strings": 0,
              "straddle_40": 0, "straddle_50": 0, "straddle_100": 0, "broken_layout": 0, "bytecode_compared": 0,
@@ -342,11 +348,15 @@ def run(ctx):
                        "raw": detail.get("raw")})
 
     # ---------------------------------------------------------------- (a) normalize_blocks: model vs real, + the theorems on the real function
+    t2 = time.time()
     norm_cases = corr_norm(ctx, qf, drv, parsed_sources) if drv else {}
+    timings["corr_normalize_s"] = round(time.time() - t2, 1)
+    t2 = time.time()
     # ---------------------------------------------------------------- (b) escape / unescape
     esc_cases = corr_escape(ctx, qf, drv) if drv else {}
     # ---------------------------------------------------------------- (c) pretty printer
     pretty_cases = corr_pretty(ctx, qf, drv) if drv else {}
+    timings["corr_escape_pretty_s"] = round(time.time() - t2, 1)
 
     corr_total = sum(c.get("cases", 0) for c in (norm_cases, esc_cases, pretty_cases))
     corr_bad = sum(c.get("disagreements", 0) for c in (norm_cases, esc_cases, pretty_cases))
@@ -355,7 +365,12 @@ def run(ctx):
         "evaluations": parsed * 5 + corr_total,
         "distinct_nontrivial": nontrivial,
         "rule": "e2e: one evaluation = one of the 5 metamorphic checks on one parseable source; distinct by SHA-1 of the source; non-trivial = the source has a comment, "
-                "a multi-line string, a block, a line within +-4 columns of the 40/50/100 thresholds, or a multi-line layout. Correspondence cases are counted separately below.",
+                "a multi-line string, a block, a line within +-4 columns of the 40/50/100 thresholds, or a multi-line layout. Correspondence cases are counted separately below. "
+                "Generator narrowing (generated sources only; corpus, std/*.qv and test-suite sources are never narrowed): no comments are placed INSIDE TYPES "
+                "(tuple-type brackets, union bars of aliases / function types): such a comment has no anchor, the formatter re-attaches it to an unrelated node, and the AST carries no "
+                "spans for types, so those failures cannot be given a stable signature; comments inside patterns, brackets, blocks, guards, after `=>`, at every sequence separator and "
+                "blank lines everywhere ARE generated. A failing case is suppressed only if every failing check is covered by known findings (status == known in known_findings.json) "
+                "whose signature matches; everything else is shrunk and reported.",
         "samples": samples + [{"source": sources[len(corpus) + len(std)][0][:200] if len(sources) > len(corpus) + len(std) else ""}],
         "sources_total": len(sources), "sources_parsed": parsed, "sources_distinct": len(seen),
         "sources_by_origin": stats["by_origin"], "parse_rejected_by_origin": stats["parse_errors"],
@@ -366,7 +381,7 @@ def run(ctx):
         "sources_bytecode_compared": stats["bytecode_compared"], "sources_not_compiling": stats["compiles_not"],
         "syntactic_forms_histogram": dict(sorted(form_hist.items())),
         "e2e_failures_unexplained": len(failures), "e2e_failures_known": known_hits,
-        "comment_scanner_vs_generator_mismatches": scanner_mismatch,
+        "comment_scanner_vs_generator_mismatches": scanner_mismatch, "timings": timings,
         "correspondence_normalize": norm_cases, "correspondence_escape": esc_cases, "correspondence_pretty": pretty_cases,
         "traces_validated_against_impl": corr_total - corr_bad,
         "disagreements_checked": corr_bad + len(failures),
@@ -383,7 +398,7 @@ def run(ctx):
 
 # ------------------------------------------------------------------------------------------ correspondences
 def corr_norm(ctx, qf, drv, parsed_sources):
-    srcs = parsed_sources[:ctx.n(2500, 30000)]
+    srcs = parsed_sources[:ctx.n(2500, 15000)]
     lines = []
     for s in srcs:
         m = ctx.rng.choice([0, 1, 2, 3])
@@ -459,7 +474,7 @@ def esc_fields(line):
 def corr_escape(ctx, qf, drv):
     rng = ctx.rng
     strings, cases = [], []
-    for _ in range(ctx.n(3000, 60000)):
+    for _ in range(ctx.n(3000, 20000)):
         sv = gen_string(rng)
         kind = rng.choice(["single", "multi", "psingle", "pmulti"])
         strings.append((kind, sv))
@@ -517,7 +532,7 @@ def corr_escape(ctx, qf, drv):
     # raw string bodies: the parser's string processing vs the model on arbitrary (also malformed) raw text
     raws = []
     rpool = ["a", "b", " ", " ", "  ", "\t", "\n", "\n", "\n  ", "\n    ", "\r\n", "\\n", "\\t", "\\r", "\\s", "\\\\", "\\\"", "\\{", "\\\n", "\\x", "\\", "\"", "\"\"", "é", "}", "中"]
-    for _ in range(ctx.n(3000, 60000)):
+    for _ in range(ctx.n(3000, 20000)):
         n = rng.choice([0, 1, 2, 4, 7, 12])
         body = "".join(rng.choice(rpool) for _ in range(n))
         mode = rng.choice(["rawmulti", "rawmulti", "rawsingle"])
@@ -570,7 +585,7 @@ def gen_doc(rng, depth):
 def corr_pretty(ctx, qf, drv):
     rng = ctx.rng
     cases = []
-    for _ in range(ctx.n(3000, 60000)):
+    for _ in range(ctx.n(3000, 20000)):
         ws = sorted(set(rng.choice([0, 1, 3, 5, 8, 10, 13, 20, 40, 100]) for _ in range(3)))
         cases.append("(pretty (w %s) %s)" % (" ".join(map(str, ws)), gen_doc(rng, rng.choice([1, 2, 3, 4, 5]))))
     rc, real = ctx.run_sharded(qf, cases, args=["pretty"])
